@@ -5,7 +5,12 @@
  * Event type NT-1 is the self-perpetuating "tick"; lower types are transient events whose
  * descendants have strictly lower types (finite cascades, bounded population).
  * Zero-delay outputs always have a strictly lower type than the event that schedules them, so
- * contract V2 (no event is scheduled *before* the current one in the msg_is_before order) holds.
+ * contract V2 (no event is scheduled *before* the current one in the msg_is_before order) holds -
+ * even its strict form V2s (every output is strictly AFTER its cause).
+ * V2-only mode (GM.fwd_tok, "token forwards"): an ordinary (non-tick, non-frozen) event of type >= 1 is ALSO forwarded, unchanged
+ * and with ZERO delay (same time stamp, type, size, payload bytes), to the next LP of the ring when the LP's event counter is not
+ * a multiple of 4 after the increment. The copy is INCOMPARABLE with its cause under msg_is_before (the destination is not part
+ * of the order): allowed by V2, excluded by V2s. Cascades are finite: every hop increments the counter of a non-frozen LP.
  * An LP whose event counter reached its threshold is frozen: CanEnd is true and the handler
  * does nothing any more.
  */
@@ -20,6 +25,7 @@ struct gm_params {
 	unsigned skew; /* LPs tick on very different time scales: some run far ahead of the GVT with sparse histories */
 	unsigned live; /* frozen LPs keep re-scheduling their tick (no state change): the event population never dies out, so a run can end
 	               * only through the termination predicates / termination time (no Lean twin: implementation-side oracles only) */
+	unsigned fwd_tok; /* V2-only mode: zero-delay forwards of IDENTICAL content to the next LP (bit 1 of the `t0` field of the model line) */
 	unsigned lib; /* also use the floating-point library RNG API (no Lean twin: judged by the implementation-side oracles only) */
 };
 static struct gm_params GM;
@@ -250,6 +256,9 @@ static void gm_process(lp_id_t me, simtime_t now, unsigned type, const void *pl,
 		unsigned ty = (hj >> 16) % type; /* strictly lower type */
 		gm_send(dest, tq + dq, ty, GM_SIZES[(hj >> 24) % 8], a, (hj >> 40) & 1);
 	}
+	/* 5. V2-only mode: the event itself goes on to the next LP, unchanged, at the same time stamp (type >= 1 here) */
+	if(GM.fwd_tok && type != GM.n_types - 1 && (st->cnt & 3) != 0)
+		ScheduleNewEvent((me + 1) % GM.n_lps, now, type, size ? pl : NULL, size);
 }
 
 static bool gm_can_end(lp_id_t me, const void *st_v)
